@@ -249,7 +249,102 @@ Section FitProofs.
   Proof.
     intros tr Htr. destruct (fit_t_values_lemma tr Htr) as (f & l & _ & _ & -> & -> & _). split; apply closest_range.
   Qed.
+
 End FitProofs.
+
+(* ---------------- t_inner / t_outer are not NaN ----------------
+   The cost function has already evaluated closest_t at the returned parameters for every point of the cluster and its
+   assert!(!val.is_nan()) passed.  No totality hypothesis is needed: the statement is about a fit that returned Ok. *)
+Section FitNotNan.
+  Variable F : Type.
+  Variable point : Type.
+  Variables (p_r p_x p_y : point -> F).
+  Variables (flt feq : F -> F -> bool).
+  Variable fcmp : F -> F -> option comparison.
+  Variable fnan : F -> bool.
+  Variables (fadd fsub fmul : F -> F -> F) (fhalf fabs : F -> F) (fzero : F).
+  Variable guess6 : list point -> point -> point -> point -> list F.
+  Variable bump : F -> F.
+  Variable point_val : list F -> point -> F.
+  Variable closest : list F -> point -> F.
+  Variable nm : (list F -> res F) -> list (list F) -> res (option (list F)).
+  Variable sd_tol_ok : bool.
+  Notation cost := (cost F point fnan fadd fzero point_val).
+  Notation three_template_points := (three_template_points F point p_r p_x p_y flt feq fcmp fadd fsub fmul fhalf fabs).
+  Notation fit := (fit_cluster_to_helix F point p_r p_x p_y flt feq fcmp fnan fadd fsub fmul fhalf fabs fzero
+                     guess6 bump point_val closest nm sd_tol_ok).
+
+  Lemma fold_stuck : forall (p : list F) l (r : res F) s, (forall a, r <> Ok a) ->
+    fold_left (fun acc q => do s <- acc; let val := point_val p q in
+                            assert_ (negb (fnan val)) (Ok (fadd s val))) l r = Ok s -> False.
+  Proof.
+    intros p. induction l as [ | b t IH]; intros r s Hr H; cbn [fold_left] in H.
+    - now apply (Hr s).
+    - eapply IH; [ | exact H]. intros a.
+      destruct r as [a0 | k | ]; [exfalso; apply (Hr a0); reflexivity | cbn [bind]; discriminate | cbn [bind]; discriminate].
+  Qed.
+
+  Lemma cost_ok_vals : forall (p : list F) l acc0 s,
+    fold_left (fun acc q => do s <- acc; let val := point_val p q in
+                            assert_ (negb (fnan val)) (Ok (fadd s val))) l acc0 = Ok s ->
+    forall q, In q l -> fnan (point_val p q) = false.
+  Proof.
+    intros p. induction l as [ | a t IH]; intros acc0 s H q Hq; [destruct Hq | ].
+    cbn [fold_left] in H. destruct Hq as [<- | Hq]; [ | eapply IH; eassumption].
+    destruct (fnan (point_val p a)) eqn:E; [ | reflexivity].
+    exfalso. eapply fold_stuck; [ | exact H].
+    intros x. destruct acc0; cbn [bind negb assert_]; discriminate.
+  Qed.
+
+  Lemma cost_ok_all : forall pts p s, cost pts p = Ok s -> forall q, In q pts -> fnan (point_val p q) = false.
+  Proof.
+    intros pts p s. unfold Fit.cost.
+    destruct (nth_res p 0); cbn [bind]; try discriminate. destruct (nth_res p 1); cbn [bind]; try discriminate.
+    destruct (nth_res p 2); cbn [bind]; try discriminate. destruct (nth_res p 3); cbn [bind]; try discriminate.
+    destruct (nth_res p 4); cbn [bind]; try discriminate. destruct (nth_res p 5); cbn [bind]; try discriminate.
+    intros H. eapply cost_ok_vals. exact H.
+  Qed.
+
+  (* the template points are points of the cluster (no hypothesis) *)
+  Lemma three_template_points_in : forall pts f m l, three_template_points pts = Ok (f, m, l) -> In f pts /\ In l pts.
+  Proof.
+    intros pts f m l. unfold Fit.three_template_points.
+    destruct pts as [ | a t] eqn:Ep; [cbn; discriminate | ]. rewrite <- Ep.
+    destruct (minmax_r_some F point p_r flt pts) as (f0 & l0 & E & Hf & Hl); [rewrite Ep; discriminate | ].
+    rewrite E. cbn [unwrap bind]. rewrite Ep at 1.
+    match goal with |- context [bind ?e _] => destruct e end; cbn [bind]; try discriminate.
+    match goal with |- context [if ?c then _ else _] => destruct c end; try discriminate.
+    intros H. inversion H; subst. auto.
+  Qed.
+
+  (* (S1) Nelder-Mead returns a vector on which it has evaluated the cost function successfully (best_param is the
+     argument of a completed cost call) *)
+  Hypothesis nm_best_evaluated : forall (c : list F -> res F) s v, nm c s = Ok (Some v) -> exists y, c v = Ok y.
+  (* (S2) IEEE: a NaN parameter t gives a NaN squared distance norm_sqr(p, helix.at(t)) *)
+  Hypothesis val_nan_of_t : forall p q, fnan (closest p q) = true -> fnan (point_val p q) = true.
+
+  Theorem fit_t_not_nan_lemma : forall pts tr, fit pts = Ok tr ->
+    fnan (tr_t_inner F tr) = false /\ fnan (tr_t_outer F tr) = false.
+  Proof.
+    intros pts tr. unfold Fit.fit_cluster_to_helix.
+    destruct (3 <=? length pts)%nat; cbn [assert_]; try discriminate.
+    destruct (three_template_points pts) as [[[f m] l] | | ] eqn:E3; cbn [bind]; try discriminate.
+    destruct (three_template_points_in pts f m l E3) as [Hf Hl].
+    destruct (initial_simplex F bump (guess6 pts f m l)) as [s | | ]; cbn [bind]; try discriminate.
+    destruct sd_tol_ok; cbn [assert_]; try discriminate.
+    destruct (nm (cost pts) s) as [[v | ] | | ] eqn:Ev; cbn [bind unwrap]; try discriminate.
+    destruct (nm_best_evaluated _ _ _ Ev) as (y & Hy).
+    destruct (nth_res v 0); cbn [bind]; try discriminate. destruct (nth_res v 1); cbn [bind]; try discriminate.
+    destruct (nth_res v 2); cbn [bind]; try discriminate. destruct (nth_res v 3); cbn [bind]; try discriminate.
+    destruct (nth_res v 4); cbn [bind]; try discriminate. destruct (nth_res v 5); cbn [bind]; try discriminate.
+    intros Htr. inversion Htr; subst tr; clear Htr. cbn [tr_t_inner tr_t_outer].
+    split.
+    - destruct (fnan (closest v f)) eqn:N; [ | reflexivity].
+      pose proof (val_nan_of_t v f N) as C. rewrite (cost_ok_all pts v y Hy f Hf) in C. discriminate.
+    - destruct (fnan (closest v l)) eqn:N; [ | reflexivity].
+      pose proof (val_nan_of_t v l N) as C. rewrite (cost_ok_all pts v y Hy l Hl) in C. discriminate.
+  Qed.
+End FitNotNan.
 
 (* ---------------- multiset bookkeeping for position / swap_remove ---------------- *)
 Definition cnt {A} (f : A -> bool) (l : list A) : nat := length (filter f l).
